@@ -32,4 +32,4 @@ PY
 else
   echo "$ID: REJECTED"; tail -5 $W/base.log $W/test.log $W/pat.log 2>/dev/null | cut -c1-300
 fi
-cd /; git -C /repo worktree remove --force $W
+[ -n "${KEEP_W:-}" ] || { cd /; git -C /repo worktree remove --force $W; }
